@@ -306,13 +306,21 @@ def qf_e3(ctx, scenarios, max_q, mlevel_max_q=6):
     scf = os.path.join(w, "scenarios.ndjson")
     vlib.vh(["drive", "qf", "--out", scf, "--seed", str(ctx.seed), "--scenarios", str(scenarios), "--max-q", str(max_q)], w)
     p, m = os.path.join(w, "p.ndjson"), os.path.join(w, "m.ndjson")
-    stats = vlib.vh(["scenario", "qf", "--in", scf, "--out", p], w)
+    stats = vlib.vh(["scenario", "qf", "--in", scf, "--out", p, "--mout", m], w)
     ctx.e3_calls += stats["calls"]
     ctx.executed += stats["calls"]
     n, rej = vlib.adjudicate("P_Quotient", p, w)
     ctx.judged += n
     add_rejects(ctx, rej, p, "qf", "P_Quotient", scenarios=scf)
     sample_records(ctx, p, 1)
+    # M-level trace validation of the recorded scenarios (code -> spec) for tables up to 2^mlevel_max_q slots
+    nm, drift, ng = vlib.mvalidate_grouped("Trace_Quotient", m, w, lambda c: (c["q"], c["r"]) if c.get("q", 99) <= mlevel_max_q and c.get("r", 99) <= 20 else None,
+                                           lambda k: {"Q": k[0], "R": k[1]})
+    ctx.mvalidated += nm
+    ctx.drift += len(drift)
+    if drift:
+        ctx.drift_notes.append({"qf_scenario_calls_not_reproduced_by_spec": drift[:5]})
+    ctx.extra.setdefault("m_level_trace_validation", []).append({"structure": "QuotientFilter", "configurations": ng, "calls": nm, "not_reproduced": len(drift)})
 
 
 # Cuckoo filter.  The two constants record whether the code under /repo has the `fix:` commits
@@ -573,6 +581,9 @@ def cms_e3(ctx, scenarios, types):
 
 def run_cms(ctx):
     alltypes = ["cms8", "cms16", "cms32", "cms64", "cmsz"]
+    if not ctx.lite:
+        # unbounded-history extra (2x3 table, arbitrary positions, weights to 10^6): inductive invariant under Apalache
+        apalache_inductive(ctx, "CMSInd", ["IndInv"], "NeverUnder")
     if ctx.quick and ctx.lite:
         cms_e1(ctx, [(2, 1, 2, 6, [1, 2, 5], 4, False), (2, 3, 2, 6, [1, 2, 5], 4, True)])
         cms_e2(ctx, [(3, 2, 3)], n_fs=1, pairs=1500, types=["cms8", "cms64"])
@@ -714,8 +725,8 @@ def run_lossy(ctx):
                label={"structure": "LossyCounter", "width": w, "symbols": ne, "max_stream": nmax})
     std_e3(ctx, "lc", "P_Lossy", "lc_e3", drive_args=["--scenarios", "30" if ctx.quick else "400", "--max-n", "3000" if ctx.quick else "40000"],
            sample='"tracked"')
-    if not ctx.quick:
-        apalache_inductive(ctx, "LossyInd", ["IndInv"], "Prop")
+    # unbounded-history extra (any stream length, width 3, four symbols): inductive invariant under Apalache
+    apalache_inductive(ctx, "LossyInd", ["IndInv"], "Prop")
 
 
 def apalache_inductive(ctx, module, indinv, prop):
